@@ -18,13 +18,13 @@ Proof.
   2:{ inversion Hh; subst. apply hspec_refl. assumption. }
   destruct (c_idle cn) eqn:Ei.
   2:{ eapply handle_cmd_ok; eauto. }
-  assert (Hbad : (put_conn st c (mkConn (c_sel cn) false), done StBAD) = (st', evs) ->
+  assert (Hbad : (put_conn st c (mkConn (c_sel cn) false (c_ro cn)), done StBAD) = (st', evs) ->
                  hspec st c (Some cm) st' evs).
   { intros H. inversion H; subst. apply hspec_set_idle; auto. apply neutral_done. reflexivity. }
   destruct cm; try (apply Hbad; exact Hh).
-  destruct (sys_poll (put_conn st c (mkConn (c_sel cn) false)) c true) as [st1 pevs] eqn:Ep.
+  destruct (sys_poll (put_conn st c (mkConn (c_sel cn) false (c_ro cn))) c true) as [st1 pevs] eqn:Ep.
   inversion Hh; subst; clear Hh.
-  pose proof (hspec_set_idle st c (Some CDone) cn false [] HI Hc (neutral_nil _ _)) as H1.
+  pose proof (hspec_set_idle st c (Some CDone) cn false (c_ro cn) [] HI Hc (neutral_nil _ _)) as H1.
   replace (pevs ++ done StOK) with ([] ++ pevs ++ done StOK) by reflexivity.
   eapply hspec_trans; [exact H1|]. destruct H1 as (HI1 & _).
   eapply hspec_poll_done with (allow := true); [assumption|cbn; discriminate|reflexivity|exact Ep].
@@ -153,14 +153,14 @@ Qed.
 Lemma view_of_init : forall nmb nconn c, view_of (sys_init nmb nconn) c = None.
 Proof.
   intros. rewrite view_of_eq. unfold sel_of. simpl.
-  destruct (get (repeat (mkConn None false) (N.to_nat nconn)) c) as [cn|] eqn:E; [|reflexivity].
+  destruct (get (repeat (mkConn None false false) (N.to_nat nconn)) c) as [cn|] eqn:E; [|reflexivity].
   apply get_repeat in E. subst. reflexivity.
 Qed.
 
 Lemma sel_of_init : forall nmb nconn c, sel_of (sys_init nmb nconn) c = None.
 Proof.
   intros. unfold sel_of. simpl.
-  destruct (get (repeat (mkConn None false) (N.to_nat nconn)) c) as [cn|] eqn:E; [|reflexivity].
+  destruct (get (repeat (mkConn None false false) (N.to_nat nconn)) c) as [cn|] eqn:E; [|reflexivity].
   apply get_repeat in E. subst. reflexivity.
 Qed.
 
